@@ -55,6 +55,10 @@ func init() {
 		for _, k := range dgLayoutFixedCases() {
 			dgRunCase(c, cs, k)
 		}
+		// fixed cases about the re-read of the verified bytes (no random draws)
+		for _, k := range dgReaderFixedCases() {
+			dgRunCase(c, cs, k)
+		}
 	}
 }
 
@@ -1273,6 +1277,71 @@ func dgLayoutFixedCases() []*dgCase {
 		k := &dgCase{el: d2.Root(), store: []*KeyPair{w.IdP1}, now: baseNow, labels: labels, ledger: led, xml: xmlText}
 		k.mustOK = expect == "ok"
 		k.expectClass = expect
+		out = append(out, k)
+	}
+	return out
+}
+
+// dgReaderFixedCases: a U+000D that reaches a SignedInfo value through a character reference.  findSignature reads the
+// Signature element through etree's serialisation (raw CR written, read back as LF), validateSignature reads the canonical
+// SignedInfo bytes ("&#xD;") directly with xml.Unmarshal (the CR stays): the two readings of Reference/@URI differ.
+//
+//	0: ID="_cr<LF>", URI="#_cr&#xD;", SignedInfo re-signed by the IdP: found by findSignature (URI read as "#_cr<LF>"), the
+//	   signature verifies, the reference re-read from the verified bytes is "#_cr<CR>" and matches nothing: "missing-reference"
+//	1: ID="_cr&#xD;", URI="#_cr&#xD;": findSignature already reads the URI as "#_cr<LF>": no reference matches, "missing"
+//	2: control, ID="_cr<LF>" and URI="#_cr&#xA;": accepted
+func dgReaderFixedCases() []*dgCase {
+	w := getWorld()
+	var out []*dgCase
+	for v := 0; v < 3; v++ {
+		led := newDgLedger()
+		doc := etree.NewDocument()
+		root := doc.CreateElement("m:Root")
+		root.CreateAttr("xmlns:m", "urn:example:m")
+		root.CreateAttr("ID", "_cr\n")
+		root.CreateElement("m:Issuer").SetText("idp")
+		root.CreateElement("m:Item").SetText("hello")
+		o := &SignOpts{Key: w.IdP1, C14N: "exc", SigAlg: dsig.RSASHA256SignatureMethod, AfterIssuer: true}
+		sig := dgSign(doc, root, o, led)
+		ref := dgChild(dgChild(sig, "SignedInfo"), "Reference")
+		if ref == nil {
+			continue
+		}
+		labels := []string{"fixed-reader", "key=" + o.Key.Name, "c14n=" + o.C14N}
+		expect := "ok"
+		switch v {
+		case 0:
+			ref.CreateAttr("URI", "#_cr\r")
+			if !dgResign(sig, o.Key, led) {
+				continue
+			}
+			labels = append(labels, "uri-cr-by-reference,id-lf,resigned")
+			expect = "missing-reference"
+		case 1:
+			ref.CreateAttr("URI", "#_cr\r")
+			root.CreateAttr("ID", "_cr\r")
+			if !dgResign(sig, o.Key, led) {
+				continue
+			}
+			labels = append(labels, "uri-cr-by-reference,id-cr-by-reference,resigned")
+			expect = "missing"
+		case 2:
+			labels = append(labels, "uri-lf,id-lf")
+		}
+		b, err := doc.WriteToBytes()
+		if err != nil {
+			continue
+		}
+		// etree writes a U+000D / U+000A of an attribute value raw; put the references back so that the reader sees those values
+		xmlText := strings.ReplaceAll(strings.ReplaceAll(string(b), "\r", "&#xD;"), "_cr\n", "_cr&#xA;")
+		d2 := etree.NewDocument()
+		if err := d2.ReadFromString(xmlText); err != nil || d2.Root() == nil {
+			continue
+		}
+		k := &dgCase{el: d2.Root(), store: []*KeyPair{w.IdP1}, now: baseNow, labels: labels, ledger: led, xml: xmlText}
+		k.mustOK = expect == "ok"
+		k.expectClass = expect
+		k.ledgerPartial = v != 2
 		out = append(out, k)
 	}
 	return out
